@@ -204,6 +204,9 @@ func setDeadline(ctx context.Context, conn net.Conn) context.CancelFunc {
 		case <-ctx.Done():
 			/* #nosec */
 			conn.SetDeadline(aLongTimeAgo)
+			// Keep the expired deadline in force until the operation returns so that
+			// I/O that starts after the cancellation fails as well.
+			<-cancelCtx.Done()
 			/* #nosec */
 			conn.SetDeadline(time.Time{})
 		case <-cancelCtx.Done():
